@@ -142,6 +142,48 @@ func c07Pair(seed uint64, shape string) *lib.Pair {
 		}
 		p.Feat["tail-edit-same-length"] = true
 		return p
+	case "shrinking":
+		// several files that are all optimized with one scanner context, old sizes DEcreasing in processing (path)
+		// order; each later file's new version takes in data that sits in an earlier, larger old file beyond the
+		// later old file's own length (content moved from a big file into a small one)
+		p := &lib.Pair{Old: lib.NewBuild(), New: lib.NewBuild(), Feat: map[string]bool{}}
+		A := lib.RandomBytes(int64(r.Range(150000, 300000)), r.Uint64())
+		B := lib.RandomBytes(int64(len(A)*r.Range(40, 70)/100), r.Uint64())
+		C := lib.RandomBytes(int64(r.Range(2000, 9000)), r.Uint64())
+		D := lib.RandomBytes(int64(r.Range(1, 40)), r.Uint64())
+		na := append([]byte(nil), A...)
+		lib.FillRandom(na[1000:1100], r.Uint64())
+		x := len(B) + r.Range(0, len(A)-len(B)-20000)
+		nb := append(append(append([]byte(nil), B[:len(B)/2]...), A[x:x+r.Range(5000, 20000)]...), B[len(B)/2:]...)
+		y := len(C) + r.Range(0, len(B)-len(C)-3000)
+		nc := append(append([]byte(nil), C...), B[y:y+r.Range(500, 3000)]...)
+		z := len(D) + r.Range(0, len(C)-len(D)-600)
+		nd := append(append([]byte(nil), D...), C[z:z+r.Range(100, 600)]...)
+		for i, f := range [][2][]byte{{A, na}, {B, nb}, {C, nc}, {D, nd}} {
+			name := fmt.Sprintf("m%d.bin", i)
+			p.Old.PutFile(name, f[0])
+			p.New.PutFile(name, f[1])
+		}
+		p.Feat["old-sizes-decreasing+content-moved-from-bigger-file"] = true
+		return p
+	case "single":
+		// exactly one file is optimized (the others are unchanged or new)
+		p := &lib.Pair{Old: lib.NewBuild(), New: lib.NewBuild(), Feat: map[string]bool{}}
+		d := lib.RandomBytes(int64(r.Range(1000, 250000)), r.Uint64())
+		nd := append([]byte(nil), d...)
+		lib.FillRandom(nd[len(nd)/2:len(nd)/2+r.Range(1, 300)], r.Uint64())
+		if r.Bool() {
+			nd = append(nd[:len(nd)/3], nd[len(nd)/3+r.Range(1, 100):]...)
+		}
+		p.Old.PutFile("changed.bin", d)
+		p.New.PutFile("changed.bin", nd)
+		if r.Bool() {
+			same := lib.RandomBytes(int64(r.Range(1, 100000)), r.Uint64())
+			p.Old.PutFile("same.bin", same)
+			p.New.PutFile("same.bin", same)
+		}
+		p.Feat["single-optimized-file"] = true
+		return p
 	case "larger":
 		return lib.GenPair(seed, lib.GenOpts{MaxFile: 1 * lib.MB, MinFiles: 2, MaxFiles: 4})
 	default:
@@ -164,7 +206,7 @@ func c07Cases(tier string, seed uint64, flavor string) []lib.Case {
 	var cases []lib.Case
 	r := lib.NewRng(lib.Mix(seed, 77))
 	for i := 0; i < npairs; i++ {
-		shape := []string{"tiny", "tailedit", "generic", "shares", "selfsimilar", "larger", "tiny"}[i%7]
+		shape := []string{"tiny", "tailedit", "generic", "shares", "selfsimilar", "larger", "tiny", "shrinking", "single"}[i%9]
 		s := c07Spec{PairSeed: lib.Mix(seed, 7, uint64(i)), Shape: shape, InComp: inComps[i%3]}
 		parts := []int{}
 		for p := 0; p <= 16; p++ {
@@ -203,16 +245,30 @@ func c07Run(c lib.Case, env *lib.Env) lib.Result {
 		res.Violate("diff-error", err.Error())
 		return res
 	}
+	// odd cases: the two pools are built once and serve every optimizer run of the case (a parameter sweep)
+	var shared *lib.OptPools
+	if c.ID%2 == 1 {
+		shared = &lib.OptPools{}
+		defer func() {
+			if shared.Target != nil {
+				shared.Target.Close()
+				shared.Source.Close()
+			}
+		}()
+	}
 	for pi, op := range s.Params {
-		desc := fmt.Sprintf("pairSeed=%d shape=%s in=%s params=%+v out=%v", s.PairSeed, s.Shape, s.InComp, op, op.Comp)
+		desc := fmt.Sprintf("pairSeed=%d shape=%s in=%s params=%+v out=%v sharedPools=%v run=%d", s.PairSeed, s.Shape, s.InComp, op, op.Comp, shared != nil, pi)
 		var ob bytes.Buffer
 		var oerr error
 		var panicked bool
 		var stack string
 		v := lib.RunWithQuiescence(func() {
-			oerr, panicked, stack = lib.Guard(func() error { return lib.Optimize(dr.Patch, oldDir, newDir, op, &ob) })
+			oerr, panicked, stack = lib.Guard(func() error { return lib.OptimizeWith(dr.Patch, oldDir, newDir, op, &ob, shared) })
 		}, 120*time.Second)
 		res.Add("optimizations", 1)
+		if shared != nil && pi > 0 {
+			res.Add("optimizations_over_pools_used_before", 1)
+		}
 		if !v.Returned {
 			key := "optimizer-does-not-return"
 			if v.Deadlock {
@@ -289,7 +345,7 @@ func init() {
 	lib.Register(&lib.Property{
 		ID:          "C07",
 		Level:       "exploration",
-		Rule:        "patches from pairs emphasising new files of 0..16 bytes next to old files of 0..40 bytes / several blocks, old files empty / 1-2 bytes, files mapped to a differently named old file (rename+edit), files made of equal shares of two old files, plus generic pairs; optimized by the real rediff with partitions 0..16 (all), ForceMapAll on/off, SuffixSortConcurrency {0,1,4,-1}, RediffSizeLimit {default,1,100,70000}, output compression {default, NONE, GZIP-6, BROTLI-1}, input patches in all three algorithms; optimizer run under a quiescence-based hang detector; optimized patch decoded against the grammar, applied fresh (always) and in place (every 4th), compared with the new build. distinct = distinct (shape, partitions, ForceMapAll, ssc, limit, output, input, produced-bsdiff)",
+		Rule:        "patches from pairs emphasising new files of 0..16 bytes next to old files of 0..40 bytes / several blocks, old files empty / 1-2 bytes, files mapped to a differently named old file (rename+edit), files made of equal shares of two old files, several optimized files with DEcreasing old sizes where each later new file takes in data lying in an earlier, larger old file beyond its own old length, exactly one optimized file, plus generic pairs; in odd cases the target/source pools are built once and serve every optimizer run of the case; optimized by the real rediff with partitions 0..16 (all), ForceMapAll on/off, SuffixSortConcurrency {0,1,4,-1}, RediffSizeLimit {default,1,100,70000}, output compression {default, NONE, GZIP-6, BROTLI-1}, input patches in all three algorithms; optimizer run under a quiescence-based hang detector; optimized patch decoded against the grammar, applied fresh (always) and in place (every 4th), compared with the new build. distinct = distinct (shape, partitions, ForceMapAll, ssc, limit, output, input, produced-bsdiff)",
 		Assumptions: []string{"in-place application is skipped for pairs with kind swaps (known C02 findings)"},
 		Flavors: func(tier string) []string {
 			if tier == "thorough" {
